@@ -76,10 +76,29 @@ def as_dict_literal(prog, mi, e, depth=0):
     to one of those, or a dict comprehension `{k: v for k, v in <sequence of pairs>}`"""
     if e is None or depth > 4:
         return e
-    if isinstance(e, ast.Dict):
+    if isinstance(e, ast.Dict) and not any(k is None for k in e.keys):
         return e
     if isinstance(e, ast.Name) and mi.const_multi.get(e.id, 0) == 1:
         return as_dict_literal(prog, mi, mi.consts.get(e.id), depth + 1)
+    if isinstance(e, ast.BinOp) and isinstance(e.op, ast.BitOr):
+        # A | B of two dict displays: the entries of A, then those of B (a later key replaces an earlier one, as in a display)
+        a, b = as_dict_literal(prog, mi, e.left, depth + 1), as_dict_literal(prog, mi, e.right, depth + 1)
+        if isinstance(a, ast.Dict) and isinstance(b, ast.Dict):
+            return ast.copy_location(ast.Dict(keys=list(a.keys) + list(b.keys), values=list(a.values) + list(b.values)), e)
+    if isinstance(e, ast.Dict) and any(k is None for k in e.keys):
+        # {**A, **B, k: v}
+        keys, vals = [], []
+        for k, v in zip(e.keys, e.values):
+            if k is None:
+                sub = as_dict_literal(prog, mi, v, depth + 1)
+                if not isinstance(sub, ast.Dict) or any(x is None for x in sub.keys):
+                    return e
+                keys += list(sub.keys)
+                vals += list(sub.values)
+            else:
+                keys.append(k)
+                vals.append(v)
+        return ast.copy_location(ast.Dict(keys=keys, values=vals), e)
     seq = None
     if isinstance(e, ast.Call) and isinstance(e.func, ast.Name) and e.func.id == "dict" and len(e.args) == 1 and not e.keywords:
         seq = e.args[0]
